@@ -61,6 +61,8 @@ BAD = {
             "{root = {name = \"a\", children = [\"ok\", {name = \"b\"}, 1]}}", "{root = {name = \"a\", attrs = {k = 1}}}",
             "{root = {name = \"a\", children = [{name = \"b\", children = [{name = \"c\", text = \"both\"}]}]}}"],
 }
+# values whose conversion SUCCEEDS with zero bytes: the artifact must still be created (and replace an earlier one)
+EMPTY_OUT = {"env": ["{}", "{nested = {a = 1}, items = [1, 2]}", "NULL", "[1]", "{a = NULL}"], "flags": ["{}"], "yamlmulti": ["[]"]}
 CONSTRAINT_PROG = "constraint c = in 1..5;\nout %s {a = c};\n"
 
 
@@ -191,6 +193,8 @@ def task(args):
         bads = list(BAD.get(fmt, []))
         with core.TempProject("c14") as tp:
             scenario = r.choice(["fresh-good", "good-bad-good", "bad-first", "constraint", "zero-out", "two-outs", "good-good"])
+            if fmt in EMPTY_OUT and r.random() < 0.35:
+                scenario = r.choice(["empty-fresh", "good-then-empty"])
             pl = Place(*r.choice(PLACES))
             os.makedirs(tp.path("other"), exist_ok=True)
             witness = {"format": fmt, "good": good_t, "scenario": scenario, "place": pl.as_json()}
@@ -203,6 +207,18 @@ def task(args):
             if scenario == "fresh-good":
                 tp.write(pl.src, "let v = %s;\nout %s v;\n" % (good_t, fmt))
                 judge_good(res, probe, tp, pl, fmt, ext, good_t, ["good"], witness)
+            elif scenario == "empty-fresh":
+                et = r.choice(EMPTY_OUT[fmt])
+                witness["good"] = et
+                tp.write(pl.src, "let v = %s;\nout %s v;\n" % (et, fmt))
+                judge_good(res, probe, tp, pl, fmt, ext, et, ["empty"], witness)
+            elif scenario == "good-then-empty":
+                et = r.choice(EMPTY_OUT[fmt])
+                witness["good2"] = et
+                tp.write(pl.src, "let v = %s;\nout %s v;\n" % (good_t, fmt))
+                if judge_good(res, probe, tp, pl, fmt, ext, good_t, ["good"], witness):
+                    tp.write(pl.src, "let v = %s;\nout %s v;\n" % (et, fmt))
+                    judge_good(res, probe, tp, pl, fmt, ext, et, ["good", "empty"], witness)
             elif scenario == "good-good":
                 tp.write(pl.src, "let v = %s;\nout %s v;\n" % (good_t, fmt))
                 if judge_good(res, probe, tp, pl, fmt, ext, good_t, ["good"], witness):
@@ -279,6 +295,9 @@ def check_witness(w):
             os.makedirs(tp.path("other"), exist_ok=True)
             tp.write(pl.src, "let v = %s;\nout %s v;\n" % (w["good"], fmt))
             ok = judge_good(res, probe, tp, pl, fmt, ext, w["good"], ["good"], w)
+            if ok and w.get("good2"):
+                tp.write(pl.src, "let v = %s;\nout %s v;\n" % (w["good2"], fmt))
+                judge_good(res, probe, tp, pl, fmt, ext, w["good2"], ["good", "good"], w)
             if w.get("bad") and w["bad"] != "constraint value":
                 tp.write(pl.src, "let v = %s;\nout %s v;\n" % (w["bad"], fmt))
                 judge_bad(res, tp, pl, fmt, ext, ["good", "bad"], w, "literal")
